@@ -75,7 +75,16 @@ func (sh *SearchHistory) Load() error {
 		return nil
 	}
 
+	maxSize := sh.MaxSize
 	err = json.Unmarshal(data, sh)
+	// The file may carry a nonsensical max_size (zero or negative); never let it
+	// replace a usable limit, or AddEntry would drop every entry or slice out of range.
+	if sh.MaxSize <= 0 {
+		sh.MaxSize = maxSize
+		if sh.MaxSize <= 0 {
+			sh.MaxSize = 100
+		}
+	}
 	if err != nil {
 		return fmt.Errorf("failed to parse history file: %w", err)
 	}
